@@ -2,7 +2,7 @@ SPECIFICATION Spec
 CONSTANTS
   NF = 2
   Mods = {"A", "B"}
-  BindOptions = {{}, {"int", "len"}}
+  BindOptions = {{}, {"int=user", "len=none"}, {"float=zero", "len=user"}}
   Faults = {"none", "py_after", "guppy_before", "bad_return"}
   AllowNest = TRUE
   MaxCompiles = 1
